@@ -156,3 +156,68 @@ def cmp_prove(prop, case, model, mat, F, variant, final):
 COMPARATORS["prove"] = cmp_prove
 COMPARATORS["prove_multi"] = cmp_prove
 ORACLES.setdefault("C07", set()).update({"reference_prover_accepted"})
+
+
+def cmp_prove_nr(prop, case, model, mat, F, variant, final):
+    """reference prover for a presentation WITH a non-revocation part, two phases: the model returns the transcript
+    (pairing-side values as exponents), they are materialised by the pairing library and hashed here, the model
+    finishes the proof for that challenge (and re-computes the hash itself), the real verifier judges"""
+    from . import core
+    if model is None or "error" in model:
+        if final:
+            F.mismatch("driver", "model driver failed on %s: %s" % (case["id"], (model or {}).get("error")), case, variant)
+        return False
+    if model.get("status") != "ok" or "transcript" not in model:
+        if final:
+            F.mismatch("model_prove", "%s: model prover failed: %s" % (case["id"], model), case, variant, model)
+        return False
+    tr = model["transcript"]
+    parts, nrb, text, pending = [], [], {}, False
+    for it in tr:
+        if "bytes" in it:
+            parts.append(bytes.fromhex(it["bytes"]))
+            continue
+        kind, exp = next(iter(it.items()))
+        b = mat.group(kind, exp)
+        if kind in ("g1", "g2"):
+            t = mat.call("genpow_text", {"group": kind, "exp": exp})
+            if t is not None:
+                text[(kind, exp)] = t
+        if b is None:
+            pending = True
+            continue
+        if b == "materialise-error":
+            F.mismatch("materialise", "%s: %s^%s could not be materialised" % (case["id"], kind, exp), case, variant)
+            return False
+        parts.append(bytes.fromhex(b))
+        nrb.append(b)
+    if pending or not final:
+        return True
+    c = int.from_bytes(hashlib.sha256(b"".join(parts)).digest(), "big")
+    c2 = {"id": case["id"], "op": "prove_nr", "in": dict(case["in"])}
+    c2["in"].update({"c_hash": str(c), "nr_tau_bytes": nrb[:8], "nr_c_bytes": nrb[8:]})
+    m2 = core.model_run([c2], workers=1).get(case["id"])
+    if m2 is None or "error" in m2 or m2.get("status") != "ok":
+        F.mismatch("model_prove", "%s: model prover (second phase) failed: %s" % (case["id"], str(m2)[:300]), case, variant, m2)
+        return False
+    proof = m2["proof"]
+    cl = proof["proofs"][0]["non_revoc_proof"]["c_list"]
+    for f in list(cl):
+        kind, exp = next(iter(cl[f].items()))
+        t = text.get((kind, exp))
+        if not isinstance(t, str):
+            F.mismatch("materialise", "%s: no text form for c_list.%s: %s" % (case["id"], f, t), case, variant)
+            return False
+        cl[f] = t
+    ex = case["impl"]["exec"]
+    inp = dict(ex["in"])
+    inp["proof"] = proof
+    res = core.harness_exec(variant, [{"id": "v", "op": ex["op"], "in": inp}])
+    r = (res.get("v") or {}).get("out") or {"status": "exec-error", "msg": str(res)[:200]}
+    if verdict(r) != "accept":
+        F.oracle_failure("reference_prover_accepted", "the real verifier does not accept a presentation WITH a non-revocation part computed by the model prover (%s): %s" %
+                         (case.get("class"), {k: v for k, v in r.items() if k != "oracles"}), case, variant)
+    return True
+
+
+COMPARATORS["prove_nr"] = cmp_prove_nr
